@@ -1,4 +1,5 @@
 import GlonaxModel.Spec.C10
+import GlonaxModel.Thm.C11
 /-! THEOREMS C10 -/
 namespace Glonax.Thm.C10
 open Glonax Auth Spec.C10 Consts
@@ -90,5 +91,62 @@ theorem C10_accept_marks (now : Nat) (u : BusUnit) (s : UnitSt) (rest : List (Bu
     (recvLoop now ((u, s) :: rest) f).1.tail = rest.map (·.2) := by
   have : r.signals.isEmpty = false := by cases h : r.signals with | nil => exact absurd h hs | cons a b => rfl
   simp [recvLoop, hr, this]
+
+/-- "Healthy only if at least one message FROM IT has been accepted": whatever the set of configured units (the simulator
+aside, see C11), a received frame turns a unit from not-heard into heard only if the frame's source address is that
+unit's address.  (Rests on C11_source_guard; the drivers' parse tables behind it are regenerated from the source, see
+C11_parse_tables_as_modelled.) -/
+theorem C10_heard_only_from_own_address (now : Nat) (f : J1939.Frame) :
+    ∀ (l : List (BusUnit × UnitSt)), (∀ p ∈ l, p.1.kind ≠ Drv.Kind.sim) →
+      ∀ (i : Nat) (hi : i < l.length) (x : UnitSt), (recvLoop now l f).1[i]? = some x → x.heard = true →
+        (l[i].2.heard = true ∨ J1939.source f.id = l[i].1.da) := by
+  intro l
+  induction l with
+  | nil => intro _ i hi; simp at hi
+  | cons p rest ih =>
+    obtain ⟨u, s⟩ := p
+    intro hns i hi x hx hh
+    have hk : u.kind ≠ Drv.Kind.sim := hns (u, s) (by simp)
+    have hrest : ∀ p ∈ rest, p.1.kind ≠ Drv.Kind.sim := fun p hp => hns p (by simp [hp])
+    cases hr : Drv.tryRecv u.kind u.da f with
+    | panic =>
+      simp only [recvLoop, hr] at hx
+      cases i with
+      | zero => simp at hx; subst hx; exact Or.inl hh
+      | succ j =>
+        simp only [List.getElem?_cons_succ, List.getElem?_map] at hx
+        have hj : j < rest.length := by simpa using hi
+        simp only [List.getElem?_eq_getElem hj, Option.map_some, Option.some.injEq] at hx
+        subst hx; exact Or.inl (by simpa using hh)
+    | ok r =>
+      by_cases he : r.signals.isEmpty = true
+      · -- the loop goes on to the other units
+        cases i with
+        | zero =>
+          simp only [recvLoop, hr, he, if_true] at hx
+          simp only [List.getElem?_cons_zero, Option.some.injEq] at hx
+          by_cases hm : r.marks = true
+          · right
+            exact (Thm.C11.C11_source_guard u.kind hk u.da f r hr (by simp [Thm.C11.touched, Drv.RecvOut.alive, hm])).1
+          · left
+            have hnil : r.signals = [] := by simpa using he
+            subst hx
+            simp [hnil, hm] at hh
+            simpa using hh
+        | succ j =>
+          simp only [recvLoop, hr, he, if_true, List.getElem?_cons_succ] at hx
+          have hj : j < rest.length := by simpa using hi
+          simpa using ih hrest j hj x hx hh
+      · -- this unit took the frame: the others are untouched
+        have hne : r.signals.isEmpty = false := by simpa using he
+        cases i with
+        | zero =>
+          right
+          exact (Thm.C11.C11_source_guard u.kind hk u.da f r hr (by simp [Thm.C11.touched, Drv.RecvOut.alive, hne])).1
+        | succ j =>
+          simp only [recvLoop, hr, hne, Bool.false_eq_true, if_false, List.getElem?_cons_succ, List.getElem?_map] at hx
+          have hj : j < rest.length := by simpa using hi
+          simp only [List.getElem?_eq_getElem hj, Option.map_some, Option.some.injEq] at hx
+          subst hx; exact Or.inl (by simpa using hh)
 
 end Glonax.Thm.C10
